@@ -10,7 +10,7 @@ T4 = ["Retry"]
 PROOF_MODULES = ["GrpcProofs.Properties.C23"]
 THEOREMS = ["GrpcProofs.C23." + t for t in (
     "finish_runs_done_at_most_once", "every_attempt_finished_once", "done_exactly_once_at_end", "finish_finishes",
-    "cancel_finishes", "abandoned_attempt_finished_before_retry", "failed_creation_finished_once", "pick_loop_done",
+    "cancel_finishes", "abandoned_attempt_finished_before_retry", "failed_creation_finished_once", "pick_loop_done", "cancelled_pick_done",
     "pick_loop_fresh_ids")]
 DESIGN_REF = "DESIGN.md section 8, C23"
 TECHNIQUE = ("Lean 4 invariant proofs over the retry-loop model of C18 (csAttempt.finish is reached exactly once per attempt on every "
@@ -26,12 +26,15 @@ LEVEL_NOTE = ("Domain (DESIGN section 7): pick results whose SubConn was created
               "'Fails to create a stream': transport.NewStream failing after a successful pick is modelled (St.failStep/failLoop: the attempt "
               "never becomes cs.attempt and is finished at the top of retryLocked's next turn) and driven through failing per-RPC credentials, "
               "on first and on retried attempts. "
+              "A context that ends while Pick runs (stale picker handing out a not-READY SubConn, or none) is modelled as pick kinds "
+              "notready! / nosc! and driven by cancelling the RPC from inside the scripted picker. "
               "Cancellation is exercised for streaming RPCs (the goroutine of newClientStream calls cs.finish).")
 GAP = "foreign SubConn types; non-status picker errors; NewStream failures other than a status error without transparent retry; concurrent picker updates racing with a pick"
 ASSUMPTIONS = ["the scripted server writes answers only at quiescent points", "a new picker is published at the next quiescent point after nosc/notready"]
 RULE = ("s_pickdone: the C18 generator's policies/server scripts/app op sequences plus `cancel`, combined with a picker script of "
         "ok / oknd / notready / nosc entries (and hang or a status-error drop as the outcome of the first pick) and a script of stream-creation "
-        "outcomes (per-RPC credentials failing after a successful pick, on the first or on a retried attempt, with a retryable or fatal code); every pick and every Done "
+        "outcomes (per-RPC credentials failing after a successful pick, on the first or on a retried attempt, with a retryable or fatal code), "
+        "and picks during which the RPC's context ends while the picker hands out a not-READY SubConn or none (notready! / nosc!); every pick and every Done "
         "call of the real channel is logged with ids. Non-trivial = at least two picks or a Done with a non-zero code.")
 
 
@@ -42,7 +45,7 @@ def _c18():
     return m
 
 
-def picks(rng, ns_fail=False):
+def picks(rng, ns_fail=False, cancel_ok=True):
     """ns_fail: some stream creations fail, so which pick serves the first attempt is not known here: hang/drop are left out"""
     first = []
     for _ in range(rng.choice([0, 0, 0, 1, 1, 2])):
@@ -57,7 +60,14 @@ def picks(rng, ns_fail=False):
     else:
         first.append(rng.choice(["ok", "ok", "ok", "oknd"]))
     rest = [rng.choice(["ok", "ok", "oknd", "notready", "nosc", "ok"]) for _ in range(rng.randrange(0, 8))]
-    return first + rest
+    out = first + rest
+    # the RPC's context ends while a Pick runs that hands out a not-READY SubConn / no SubConn (a stale picker and a
+    # cancellation racing): anywhere in the script, i.e. on the first attempt or on a retried one
+    if cancel_ok and rng.random() < 0.3:
+        k = rng.randrange(0, len(out))
+        if out[k] not in ("hang",) and not out[k].startswith("drop"):
+            out[k] = rng.choice(["notready!", "notready!", "nosc!"])
+    return out
 
 
 def app(rng, kind, c18):
@@ -93,6 +103,12 @@ def directed():
     c("ns-first-retryable", 4, "b", "HE:0", "ok,ok,ok", ["new d", "send 1", "close", "recv", "recv"], "14,14,-")
     c("ns-send-path", 4, "b", "T0:14;HE:0", "ok,ok,oknd,ok", ["new d", "send 1", "send 2", "close", "recv"], "-,14,14,-")
     c("ns-exhaust", 3, "u", "TE:14;HE:0", "-", ["new d", "send 1", "recv"], "-,14,14,14")
+    # the context ends inside Pick while the picker hands out a not-READY SubConn (with Done) or nothing
+    c("cancel-in-pick-first", 4, "b", "HE:0", "notready!,ok", ["new d", "send 1"])
+    c("cancel-in-pick-first-nosc", 4, "b", "HE:0", "notready,nosc!,ok", ["new d", "send 1"])
+    c("cancel-in-pick-retry", 4, "u", "TE:14;HE:0", "ok,notready!,ok", ["new d", "send 1", "recv", "recv"])
+    c("cancel-in-pick-retry-b", 4, "b", "T1:14;HE:0", "ok,notready,notready!,ok", ["new d", "send 1", "send 2", "recv"])
+    c("cancel-in-pick-after-ns", 4, "u", "TE:14;HE:0", "ok,ok,nosc!,ok", ["new d", "send 1", "recv"], "-,14")
     return out
 
 
@@ -103,7 +119,10 @@ def gen(rng, tier):
     n = {"quick": 500, "thorough": 15000, "search": 5000}[tier]
     for i in range(n):
         line, kind = c18.cfg(rng)
-        yield Case("s_pickdone", [line + " picks=" + ",".join(picks(rng, "ns=-" not in line))] + app(rng, kind, c18), "rand-%d" % i)
+        # CANCELLED must not be a retryable code when the context is cancelled inside a pick (the retry would only
+        # meet the cancelled context again)
+        codes = line.split(" codes=")[1].split(" ")[0].split(",")
+        yield Case("s_pickdone", [line + " picks=" + ",".join(picks(rng, "ns=-" not in line, "1" not in codes))] + app(rng, kind, c18), "rand-%d" % i)
 
 
 def nontrivial(case, impl_lines):
